@@ -150,7 +150,9 @@ func genListen(rng *rand.Rand, v6 bool, mcast []string, wantBad string) listenSp
 			}
 			return listenSpec{text: host + ps, want: []AddrWant{{"", wp, ""}}}
 		case 1: // link-local multicast without zone: expanded
-			ip := []string{"ff02::1:2", "ff02::1", "ff01::1"}[rng.Intn(3)]
+			// scope = low nibble of the second byte (1 interface-local, 2 link-local); the high nibble are
+			// flags (transient, prefix-based, embedded RP) and do not change the scope
+			ip := []string{"ff02::1:2", "ff02::1", "ff01::1", "ff12::1:2", "ff11::7", "ff32:40:fe80::1", "ff72:140:2001:db8::5", "fff2::9"}[rng.Intn(8)]
 			var w []AddrWant
 			for _, m := range mcast {
 				w = append(w, AddrWant{ip, wp, m})
